@@ -1,6 +1,6 @@
 """Bounded tier (C05, labelled bounded): index objects follow NumPy indexing semantics.
 Oracle = NumPy itself (the property's oracle).  Exhaustive grid: every index spec from the grammar
-{int, negative int, slices with +-step / None ends, 1-d and 2-d int arrays incl. negatives, lists,
+{int, negative int, EVERY slice with ends in {None} u [-n, n] and step in {None, +-1, +-2}, 1-d and 2-d int arrays incl. negatives, lists,
 tuples of those, Ellipsis forms, om.slicer[...]} x every source shape up to rank 3 / extent 3 x
 flat_src in {True, False}.  Checked: indexer(...).shaped_array() (flat source positions),
 indexed_src_shape, indexed_val(arr), as_array(flat=True); array2slice(arr) selects arr's positions
@@ -15,8 +15,9 @@ import numpy as np
 def specs_for(shape, tier):
     n0 = shape[0]
     ints = sorted(set([0, n0 - 1, -1, -n0]))
-    sl = [slice(None), slice(0, n0), slice(1, None), slice(None, -1), slice(None, None, 2), slice(None, None, -1),
-          slice(n0 - 1, None, -1), slice(-1, 0, -1), slice(1, 1), slice(0, n0, n0)]
+    # every slice whose explicit ends lie within [-n0, n0], steps +-1, +-2 (and None): systematic, not hand-picked
+    ends = [None] + list(range(-n0, n0 + 1))
+    sl = [slice(a, b, st) for a in ends for b in ends for st in (None, 1, 2, -1, -2)] + [slice(0, n0, n0)]
     # (2-d non-tuple index arrays are deliberately excluded: OpenMDAO documents, with a deprecation
     #  warning, that it reads them as tuple(seq) — legacy NumPy semantics)
     arrs = [np.array([0]), np.array([n0 - 1, 0]), np.array([-1]), np.array([0, 0]), np.array([-1, 0, -n0]),
@@ -88,8 +89,15 @@ def main(tier):
                     got_val = np.atleast_1d(ind.indexed_val(base)).ravel()
                     got_shape = tuple(ind.indexed_src_shape)
                 except Exception as e:     # noqa
-                    # OpenMDAO rejects this specification (documented stricter rules, e.g. slices that
-                    # reach outside the source): "accepted by OpenMDAO" is a premise of the property
+                    if isinstance(spec, slice) and not (isinstance(e, IndexError) and 'out of bounds' in str(e)):
+                        # OpenMDAO's own deliberate rejection is IndexError('... out of bounds of the source shape');
+                        # anything else raised for a slice NumPy accepts (e.g. NumPy's 'array is too big' from
+                        # an arange over sys.maxsize) is a failure, not a documented rejection
+                        fail(kind='exception', shape=list(shape), spec=show(spec), flat_src=flat_src, error=repr(e)[:200],
+                             numpy=want_pos.tolist())
+                        continue
+                    # OpenMDAO rejects this specification (documented stricter rules): "accepted by
+                    # OpenMDAO" is a premise of the property
                     rejected[0] += 1
                     continue
                 nontrivial.add(key)
